@@ -122,7 +122,9 @@ for d in sorted(glob.glob("/verif/seeded/*/")):
         if a.returncode != 0:
             res[c] = "patch no longer applies to the current tree"
             continue
+        sh(f"cp /verif/evidence/{c}.json /var/tmp/evidence.seeds.json")  # evidence describes the unchanged tree
         r = sh(f"cd /verif && ./run {c} quick")
+        sh(f"mv /var/tmp/evidence.seeds.json /verif/evidence/{c}.json")
         sh("git -C /repo checkout -- . && git -C /repo clean -fdq")
         viol = [l for l in r.stdout.splitlines() if l.startswith("VIOLATION")]
         fps = sorted({l.split("fingerprint=")[1].split(" ")[0] for l in r.stderr.splitlines() if l.startswith("violation")})
